@@ -42,6 +42,8 @@ type c03Fault struct {
 	//            Close() was called (a peer that stopped draining its receive buffer for a while);
 	// idle       (UDP) every transmission of data segment Seq and every close request of the closing
 	//            direction is lost, for ever: the reader hears nothing any more
+	// tcp-reset  (TCP, characterisation only — not a fault the property quantifies over) the connection is
+	//            reset when the closing direction has carried Seq bytes
 	Kind    string `json:"kind"`
 	Seq     int    `json:"seq"`      // sequence number (closing direction) whose FIRST transmission is hit
 	DelayMs int    `json:"delay_ms"` // for delay-* and latency
@@ -254,6 +256,10 @@ func c03Exec(k c03Case) *c03Outcome {
 	}
 	if !k.UDP {
 		o.tap = newC03StreamTap(w.Net.T0(), !k.ServerCloses, k.Fault.Kind == "tcp-stall")
+		if k.Fault.Kind == "tcp-reset" {
+			o.tap.resetAt = int64(k.Fault.Seq)
+			o.tap.onReset = func() { w.Fault() }
+		}
 		w.Net.StreamFilter = o.tap.filter
 	}
 	bound := time.Duration(k.BoundMs) * time.Millisecond
@@ -646,6 +652,54 @@ func c03Run(c *core.Ctx, k c03Case) {
 	if o.Final == "no-session" {
 		return
 	}
+	if k.Fault.Kind == "tcp-reset" {
+		resetPartial := o.Final == "EOF" && o.Got < o.Written // o.Written = what Write accepted
+		// Characterisation, not an oracle: C03 quantifies over datagram faults; a TCP connection that
+		// dies is outside it. What the reader of a session sees when its underlay dies is recorded.
+		outcome := "error"
+		switch {
+		case resetPartial:
+			outcome = "clean-eof-after-strict-prefix"
+		case o.Final == "EOF":
+			outcome = "clean-eof-after-all-data"
+		case o.Final == "blocked":
+			outcome = "blocked"
+		}
+		c.Hist("tcp_reset_reader_outcome", outcome)
+		c.Note("tcp-reset (outside C03's quantifier): %s n=%d, Write returned %d (err %q), connection reset after %d wire bytes of the closing direction: the peer application read %d bytes, final %q", dir, k.N, o.Written, o.WriteErr, k.Fault.Seq, o.Got, o.Final)
+		if c.Model != nil {
+			// a reset discards what the receiving underlay had not yet read: the reader's session got a
+			// prefix of the wire's items — the whole segments that make up the bytes it handed out
+			all, _ := c03AnalyseTCP(k, o)
+			var toks []string
+			sum := 0
+			for _, t := range all {
+				var l int
+				if _, err := fmt.Sscanf(t, "D:%d", &l); err != nil || sum+l > o.Got {
+					break
+				}
+				sum += l
+				toks = append(toks, t)
+			}
+			final := "err"
+			switch o.Final {
+			case "EOF":
+				final = "eof"
+			case "blocked":
+				final = "blocked"
+			}
+			c.Compared()
+			// `L`: the reader's session was closed locally (underlay torn down → graceful s.Close())
+			reply := c.Model.Ask("close-tcp %s L R:%d:%s:%d", strings.Join(toks, " "), o.Got, final, o.Written)
+			f := strings.Fields(reply)
+			if len(f) < 2 || f[0] != "ok" {
+				c.Disagree("C03/corr/tcp-history-rejected", "the close model rejects the observed history of a reset connection: "+reply, k)
+			} else if (f[1] == "1") != resetPartial {
+				c.Disagree("C03/corr/tcp-reader-outcome", fmt.Sprintf("model predicts partial-then-EOF=%v after the reset, the implementation showed %v (%s)", f[1] == "1", resetPartial, reply), k)
+			}
+		}
+		return
+	}
 	if o.WriteErr != "" || o.Written != k.N {
 		// the property is conditional on a successful Write
 		c.Hist("branch", "write-failed")
@@ -895,6 +949,13 @@ func genC03(r *rand.Rand, thorough bool) []c03Case {
 			k := mk(false, sc, n, c03Fault{Kind: "tcp-stall", DelayMs: 1700})
 			k.ClientPattern, k.ServerPattern = nil, nil
 		}
+	}
+	// characterisation (not an oracle): the TCP connection is reset while the tail is on its way
+	for _, sc := range []bool{false, true} {
+		// two chunks (32768 + 7232): Write returns as soon as the second one is being written; the write
+		// that carries it crosses the mark, is held for 100 ms, and the connection is reset meanwhile
+		k := mk(false, sc, 40000, c03Fault{Kind: "tcp-reset", Seq: 36000})
+		k.ClientPattern, k.ServerPattern, k.MaxRead = nil, nil, 65536
 	}
 	reps := 0
 	if thorough {
